@@ -165,7 +165,7 @@ def gen_xml_text(rng, ns, depth=0, break_p=0.0):
         inner = "".join(gen_xml_text(rng, ns, depth + 1, break_p) for _ in range(rng.randint(1, 3)))
     cl = nm
     if rng.random() < break_p:
-        cl = rng.choice([nm + "x", nm[:-1] or "z", name()])
+        cl = rng.choice([nm + "x", nm + "-", "z" + nm.replace(":", "."), name()])
     return f"<{nm}{attrs}>{inner}</{cl}>"
 
 
